@@ -1705,7 +1705,19 @@ impl Unparser<'_> {
 
                 Ok(())
             }
-            LogicalPlan::EmptyRelation(_) => {
+            LogicalPlan::EmptyRelation(empty_relation) => {
+                // A SELECT without FROM produces one row. A relation without rows
+                // (what the optimizer leaves of `... WHERE false`) is that SELECT
+                // with `WHERE false`; its columns, if it has any, cannot be
+                // named in such a text.
+                if !empty_relation.produce_one_row {
+                    if !empty_relation.schema.fields().is_empty() {
+                        return not_impl_err!(
+                            "Unsupported plan: EmptyRelation with columns that produces no rows"
+                        );
+                    }
+                    select.selection(Some(ast::Expr::value(ast::Value::Boolean(false))));
+                }
                 // An EmptyRelation could be behind an UNNEST node. If the dialect supports UNNEST as a table factor,
                 // a TableRelationBuilder will be created for the UNNEST node first.
                 if !relation.has_relation() {
